@@ -323,7 +323,7 @@ func (g *gen) clauseUnit(id string) *UnitCase {
 	ec := g.operatorCase(id)
 	c := &UnitCase{ID: id, Kind: "clause", Ctx: &ec.Ctx, Clause: &ec.Flag.Rules[0].Clauses[0]}
 	if g.r.bool() {
-		c.Flag = &WFlag{Form: "pre"}
+		c.Flag = &WFlag{Form: pick(g.r, []string{"pre", "pre", "repre"})}
 	}
 	return c
 }
